@@ -19,6 +19,17 @@ pub fn run_case(case: &Value, out: &mut Obs) {
             }
         }
     }
+    // key sizes of which only the two channel parties are needed
+    if let Some(bits) = c["bits_main"].as_array() {
+        for b in bits {
+            let b = b.as_u64().unwrap_or(0) as u32;
+            for name in ["app", "server"] {
+                let (cert, _) = chan::pair(b, name);
+                let len = cert.as_byte_string().value.map(|v| v.len()).unwrap_or(0);
+                certs.insert(format!("{}-{}", name, b), json!(len));
+            }
+        }
+    }
     let mut mins = serde_json::Map::new();
     for kind in ["msg", "opn", "clo"] {
         for c2s in [true, false] {
